@@ -5,6 +5,7 @@
 -/
 import GojaModel.C20.Model
 import GojaModel.Generated.C20_Flags
+import GojaModel.Generated.C20_Routing
 namespace GojaModel.C20
 
 /-- generated = model, for every state and every character. -/
@@ -13,5 +14,18 @@ theorem tie_flagStep : GojaModel.Generated.C20.flagStep = flagStep := by
 
 /-- the switch has exactly one case per letter of the flag alphabet (plus `default`). -/
 theorem tie_caseCount : GojaModel.Generated.C20.caseCount = flagAlphabet.length := by decide
+
+/-- `regexpPattern.findAllSubmatchIndex` as regenerated from regexp.go decides exactly like the hand model
+`findAllRoute` (which the raw-list correspondence and the theorems about sweeps assume), for all 128 inputs. -/
+theorem tie_findAllRoute : ∀ (a b c d e f g : Bool),
+    evalNode (RouteIn.env ⟨a, b, c, d, e, f, g⟩) GojaModel.Generated.C20.findAllTree = findAllRoute ⟨a, b, c, d, e, f, g⟩ := by
+  intro a b c d e f g
+  cases a <;> cases b <;> cases c <;> cases d <;> cases e <;> cases f <;> cases g <;> rfl
+
+/-- `regexpPattern.findSubmatchIndex`: the linear engine is used only from start 0. -/
+theorem tie_findRoute : ∀ (a b c d e f g : Bool),
+    evalNode (RouteIn.env ⟨a, b, c, d, e, f, g⟩) GojaModel.Generated.C20.findTree = findRoute ⟨a, b, c, d, e, f, g⟩ := by
+  intro a b c d e f g
+  cases a <;> cases b <;> rfl
 
 end GojaModel.C20
